@@ -250,6 +250,8 @@ def run(ctx):
                   "the pointed-to cursor is assigned otherwise: %s" % (kinds if len(cur) == 1 else cur), wd.loc())
 
     # ---------------------------------------------------------------- C03.5
+    from . import C09 as _c09
+    _c09.error_id_rule(ctx, "C03.5", prog)
     ERR = DES + "Error"
     busted = [(f, b, i) for f, b, i, st in A.who_constructs(prog, ERR, "CompletelyBusted")]
     hd = prog.fn(DES + "<impl dns_types::protocol::types::Header>::deserialise")
